@@ -200,6 +200,9 @@ def boundary(w):
 
 
 BIG = [1, 2, 3, 5, 8, 13, 16, 31, 32, 33, 63, 64, 65, 100, 127, 128]
+CLZ_W = [1, 2, 3, 4, 5, 6, 7, 8, 9, 13, 15, 16, 17, 24, 31, 32, 33, 40]     # the real CLZ has O(w^2) gates: 100 bits take ~10 s to build
+CLZ_W_HEAVY = CLZ_W + [48, 63, 64, 65]
+HEAVY = False
 
 
 def big_config(blk, rng):
@@ -212,7 +215,7 @@ def big_config(blk, rng):
         if blk.name == 'BinaryToBCD':
             W['wr'] = 4 * rng.randint(1, 40)
         if blk.name == 'CountLeadingZeros':
-            W['wa'] = rng.choice(BIG + [4, 6, 7, 9, 15, 17, 24, 48]); W['wr'] = max(W['wr'], (W['wa'] - 1).bit_length() + rng.choice([0, 0, 1, 3]))
+            W['wa'] = rng.choice(CLZ_W_HEAVY if HEAVY else CLZ_W); W['wr'] = max(rng.choice([1, 2, 3, 5, 8]), (W['wa'] - 1).bit_length() + rng.choice([0, 0, 1, 3]))
         if rng.random() < 0.35:
             W['wb'] = W['wa'] if 'Shift' not in blk.name and 'Rotate' not in blk.name else W['wb']
             W['wr'] = W['wa']
